@@ -634,3 +634,64 @@ pub fn circ_dict_size<W: io::Write>(b: &LzCircularBuffer<W>) -> usize {
 pub fn circ_total<W: io::Write>(b: &LzCircularBuffer<W>) -> usize {
     b.len
 }
+
+
+//@ harness props=C02,C09 tier=quick unwind=12 mem_gb=4 timeout=600
+//@ bound: LzAccumBuffer::append_bytes(2 symbolic bytes) on a window holding 3 bytes: length bookkeeping and contents, then a copy reaching into both parts
+#[cfg_attr(kani, kani::proof)]
+#[cfg_attr(kani, kani::stub(std::fmt::format, crate::verif_common::stub_format))]
+#[cfg_attr(kani, kani::stub(std::io::Error::is_interrupted, crate::verif_common::stub_not_interrupted))]
+pub fn accum_append_bytes_l3() {
+    let mut t = Tape::<40>::new();
+    let hist: [u8; H] = t.bytes::<H>();
+    let extra = [t.u8(), t.u8()];
+    let dist = t.usize();
+    assume(dist >= 1);
+    let mut b = mk_accum::<3, 8>(&hist, usize::MAX, RecSink::<8>::new());
+    b.append_bytes(&extra[..]);
+    vassert!(b.len == 5 && b.buf.len() == 5, "accum.append_bytes: the byte count advances by the number of bytes appended (positions of later symbols depend on it)");
+    vassert!(b.buf[3] == extra[0] && b.buf[4] == extra[1] && b.buf[2] == hist[H - 1], "accum.append_bytes: appended after the existing history");
+    vassert!(b.len() == 5, "accum.len(): total since the last dictionary reset");
+    let r = b.last_n(dist);
+    match &r {
+        Ok(x) => {
+            vassert!(dist <= 5, "accum.last_n after append_bytes: within the window");
+            let want = if dist <= 2 { extra[2 - dist] } else { hist[H - (dist - 2)] };
+            vassert!(*x == want, "accum.last_n after append_bytes: uncompressed bytes are ordinary history");
+        }
+        Err(_) => {
+            vassert!(dist > 5, "accum.last_n after append_bytes: Err only beyond the window");
+        }
+    }
+    forget(r);
+    vcover!(dist == 5, "reaches_oldest");
+    forget(b);
+}
+
+//@ harness props=C12,C01 tier=quick unwind=12 mem_gb=4 timeout=600
+//@ bound: LzCircularBuffer::finish on an EMPTY window (nothing ever produced), sink failing or not: the sink is still flushed
+#[cfg_attr(kani, kani::proof)]
+#[cfg_attr(kani, kani::stub(std::fmt::format, crate::verif_common::stub_format))]
+#[cfg_attr(kani, kani::stub(std::io::Error::is_interrupted, crate::verif_common::stub_not_interrupted))]
+pub fn circ_finish_empty() {
+    let b = LzCircularBuffer {
+        stream: RecSink::<8>::new(),
+        buf: Vec::new(),
+        dict_size: 4096,
+        memlimit: usize::MAX,
+        cursor: 0,
+        len: 0,
+    };
+    let r = b.finish();
+    match &r {
+        Ok(s) => {
+            vassert!(s.len == 0 && s.writes == 0, "circ.finish(empty): nothing to write");
+            vassert!(s.flushes == 1, "circ.finish(empty): the sink is flushed even when nothing was produced");
+        }
+        Err(_) => {
+            vassert!(false, "circ.finish(empty): succeeds on a healthy sink");
+        }
+    }
+    vcover!(true, "end_reached");
+    forget(r);
+}
